@@ -1074,7 +1074,8 @@ Proof.
       destruct (N.eq_dec n 0) as [->|Hn0]; [split; [now rewrite !takeN_0|left; reflexivity]|].
       assert (E : bdata (getb h1 sid) = bdata (getb h sid)).
       { destruct (Nat.eq_dec sid (sstore s)) as [Es|Es].
-        - rewrite (K7 (P0 sid so eq_refl Es ltac:(lia))). apply D0.
+        - assert (Pb : 2 <= blocks (getb h0 (sstore s))) by (rewrite <- Es; apply (P0 sid so eq_refl Es); lia).
+          rewrite (K7 Pb). apply D0.
         - rewrite K6 by assumption. apply D0. }
       split; [rewrite E; reflexivity|]. right. split; [lia|]. unfold bsize in *. rewrite E. assumption. }
     destruct Rd as [Rd Hin1].
@@ -1106,3 +1107,351 @@ Proof.
     destruct Hin as [->|[H1 H2]]; [lia|]. pose proof (inv_cap _ _ _ I _ W). lia.
 Qed.
 End Results.
+
+Section Results2.
+Variable alloc_cap : N -> N.
+
+(* v[d] = std::move(rv): rv is a temporary that already holds one lock on its blob *)
+Lemma move_into_spec h vs ex d rv : Inv h vs (exadd ex (sstore rv)) -> (d < length vs)%nat -> wf h rv ->
+  Inv (hp (move_into h vs d rv)) (vars (move_into h vs d rv)) ex /\
+  (forall k, (k < length vs)%nat ->
+     content (hp (move_into h vs d rv)) (nth k (vars (move_into h vs d rv)) sb0) = content h (nth k (upd vs d rv) sb0)).
+Proof.
+  intros I Hd W. unfold move_into; cbn [hp vars]. set (old := nth d vs sb0).
+  destruct (inv_wf _ _ _ I d Hd) as [Wo _]. fold old in Wo.
+  assert (X : 1 <= exadd ex (sstore rv) (sstore rv)) by (unfold exadd; rewrite dl_eq by reflexivity; lia).
+  pose proof (Inv_move _ _ _ d rv I Hd W X) as I2. cbn beta in I2. fold old in I2.
+  assert (Y : 1 <= exadd ex (sstore rv) (sstore old) + dl (sstore old) (sstore old) - dl (sstore rv) (sstore old)).
+  { unfold exadd. rewrite (dl_eq (sstore old) (sstore old)) by reflexivity. pose proof (dl_le (sstore rv) (sstore old)). lia. }
+  split.
+  - eapply Inv_ext; [|apply Inv_unlock; [exact I2|exact Wo|exact Y]].
+    intros k. unfold exsub, exadd. cbn beta. pose proof (dl_le (sstore rv) k). pose proof (dl_le (sstore old) k). lia.
+  - intros k Hk. apply (unlock_contents _ _ _ (sstore old) k I2 Wo Y). rewrite length_upd. assumption.
+Qed.
+
+(* chop() on an object whose blob has another holder never touches the heap *)
+Lemma chop_shared h s pos n : 2 <= blocks (getb h (sstore s)) -> slen s < two32 ->
+  soff s + slen s <= bsize (getb h (sstore s)) ->
+  fst (sb_chop h s pos n) = h /\ sstore (snd (sb_chop h s pos n)) = sstore s /\
+  soff (snd (sb_chop h s pos n)) + slen (snd (sb_chop h s pos n)) <= bsize (getb h (sstore s)) /\
+  content h (snd (sb_chop h s pos n)) = takeN n (dropN pos (content h s)).
+Proof.
+  intros B Hl W. rewrite (sb_chop_fields h s pos n Hl).
+  set (p' := N.min pos (slen s)). set (n' := N.min n (slen s - p')).
+  assert (Cl : takeN n (dropN pos (content h s)) = window (soff s + p') n' (bdata (getb h (sstore s)))).
+  { rewrite content_window. symmetry. apply window_clip. exact W. }
+  rewrite Cl. destruct ((p' =? slen s) || (n' =? 0)) eqn:E.
+  - unfold sb_clear. destruct (blocks (getb h (sstore s)) =? 1) eqn:B1; [lia|]. cbn [fst snd sstore soff slen].
+    split; [reflexivity|]. split; [reflexivity|]. split; [lia|].
+    assert (Z : n' = 0) by (unfold n' in *; lia). rewrite Z, content_window. cbn [soff slen]. now rewrite !window_zero.
+  - cbn [fst snd sstore soff slen]. split; [reflexivity|]. split; [reflexivity|].
+    split; [unfold n', p' in *; lia|]. rewrite content_window. reflexivity.
+Qed.
+
+Lemma var_len_bound h vs ex j : Inv h vs ex -> (j < length vs)%nat -> slen (nth j vs sb0) < two32.
+Proof.
+  intros I Hj. destruct (inv_wf _ _ _ I j Hj) as [W1 W2].
+  pose proof (inv_cap _ _ _ I _ W1). pose proof (inv_capb _ _ _ I _ W1). lia.
+Qed.
+
+(* ---- setAt ---- *)
+Lemma lenN_pokeN (l : bytes) p c : lenN (pokeN l p c) = lenN l.
+Proof. revert p; induction l as [|x l IH]; intros p; cbn [pokeN lenN]; [reflexivity|]. destruct (p =? 0); cbn [lenN]; [reflexivity|now rewrite IH]. Qed.
+Lemma dropN_pokeN_lt (l : bytes) off p c : off <= p -> dropN off (pokeN l p c) = pokeN (dropN off l) (p - off) c.
+Proof.
+  revert off p; induction l as [|x l IH]; intros off p H; cbn [pokeN dropN]; [reflexivity|].
+  destruct (off =? 0) eqn:E0.
+  - apply N.eqb_eq in E0. subst off. rewrite N.sub_0_r. destruct (p =? 0) eqn:Ep; cbn [dropN pokeN]; rewrite ?Ep; reflexivity.
+  - destruct (p =? 0) eqn:Ep; [lia|]. cbn [dropN]. rewrite E0. rewrite IH by lia. f_equal. lia.
+Qed.
+Lemma takeN_pokeN_lt (l : bytes) n p c : p < n -> takeN n (pokeN l p c) = pokeN (takeN n l) p c.
+Proof.
+  revert n p; induction l as [|x l IH]; intros n p H; cbn [pokeN takeN]; [reflexivity|].
+  destruct (n =? 0) eqn:En; [lia|]. destruct (p =? 0) eqn:Ep; cbn [takeN pokeN]; rewrite En, ?Ep; [reflexivity|].
+  rewrite IH by lia. reflexivity.
+Qed.
+Lemma window_pokeN off len (d : bytes) pos c : pos < len ->
+  window off len (pokeN d (off + pos) c) = pokeN (window off len d) pos c.
+Proof.
+  intros H. unfold window. rewrite dropN_pokeN_lt by lia. replace (off + pos - off) with pos by lia.
+  apply takeN_pokeN_lt. assumption.
+Qed.
+
+Lemma sb_setAt_RS h vs ex i s pos c : Inv h vs ex -> (i < length vs)%nat -> nth i vs sb0 = s ->
+  RS h vs ex i (pokeN (content h s) pos c) (content h s) (sb_setAt alloc_cap h s pos c) /\
+  (forall x, sb_setAt alloc_cap h s pos c = Ok x ->
+     tail (fst x) (snd x) /\ sole vs i (snd x) /\ slen (snd x) = slen s).
+Proof.
+  intros I Hi Hs. unfold sb_setAt. destruct (pos <? slen s) eqn:Ep; cbn [negb].
+  2:{ split; [|discriminate]. cbn [RS fst snd]. rewrite (upd_same' _ _ _ _ Hs).
+      split; [exact I|]. split; [intros j _ _; reflexivity|]. split; [reflexivity|lia]. }
+  destruct (cow alloc_cap h s npos) as [[h1 s1]|[h1 s1]|] eqn:Ec.
+  - destruct (cow_spec alloc_cap h vs ex i s npos (h1, s1) true I Hi Hs Ec) as [(K1 & K2 & K3 & K4 & K5) X].
+    destruct (X eq_refl) as (T & So & L & _). cbn [fst snd] in *. unfold tail in T.
+    destruct (bsize (getb h1 (sstore s1)) <=? soff s1 + pos) eqn:Eb; [lia|].
+    assert (Hi1 : (i < length (upd vs i s1))%nat) by (rewrite length_upd; assumption).
+    assert (N1 : nth i (upd vs i s1) sb0 = s1) by (rewrite nth_upd, Nat.eqb_refl by assumption; reflexivity).
+    destruct (inv_wf _ _ _ K1 i Hi1) as [W1 W2]. rewrite N1 in W1, W2.
+    pose proof (inv_cap _ _ _ K1 _ W1) as Cap.
+    assert (So1 : sole (upd vs i s1) i s1).
+    { intros j Hj Hn. rewrite length_upd in Hj. rewrite nth_upd by assumption.
+      destruct (Nat.eqb_spec j i); [contradiction|]. apply So; assumption. }
+    destruct (inplace_step h1 (upd vs i s1) ex i s1 (pokeN (bdata (getb h1 (sstore s1))) (soff s1 + pos) c) K1 Hi1)
+      as (J1 & J2 & J3 & J4); rewrite ?N1, ?lenN_pokeN; unfold bsize in *; auto.
+    rewrite upd_upd in J1. split.
+    + cbn [RS fst snd]. split; [exact J1|]. split; [|split].
+      * intros j Hj Hn. specialize (J3 j). rewrite length_upd, nth_upd in J3 by assumption.
+        destruct (Nat.eqb_spec j i); [contradiction|]. rewrite J3 by assumption. apply K3; assumption.
+      * rewrite J2, window_pokeN by lia. rewrite <- content_window, K2, Hs. reflexivity.
+      * lia.
+    + intros x [= <-]. cbn [fst snd]. split; [|split; [exact So|exact L]].
+      unfold tail. rewrite getb_set_data, Nat.eqb_refl by assumption. unfold bsize; cbn [bdata]. rewrite lenN_pokeN. exact T.
+  - destruct (cow_spec alloc_cap h vs ex i s npos (h1, s1) false I Hi Hs Ec) as [(K1 & K2 & K3 & K4 & K5) _].
+    cbn [fst snd] in *. split; [|discriminate]. cbn [RS fst snd]. rewrite Hs in K2. auto.
+  - exfalso. eapply cow_defined; eauto.
+Qed.
+End Results2.
+
+(* ------------------------------------------------------------------ *)
+(* operations on variables refine operations on independent values     *)
+(* ------------------------------------------------------------------ *)
+Definition lower_byte (c : N) : N := if (65 <=? c) && (c <=? 90) then c + 32 else c.
+Definition upper_byte (c : N) : N := if (97 <=? c) && (c <=? 122) then c - 32 else c.
+Definition dropwhile (p : N -> bool) (l : bytes) : bytes := snd (span p l).
+(* std::string-style trim: strip from the end, then from the beginning, the bytes that occur in R *)
+Definition trim_spec (R : bytes) (atBeginning atEnd : bool) (v : bytes) : bytes :=
+  let v1 := if atEnd then rev (dropwhile (fun c => memb c R) (rev v)) else v in
+  if atBeginning then dropwhile (fun c => memb c R) v1 else v1.
+
+(* effect of an operation that returned normally on a list of independent byte strings *)
+Definition spec_vals (vals : list bytes) (o : op) : list bytes :=
+  let v k := nth k vals [] in
+  match o with
+  | OSet i w => upd vals i w
+  | OAsg i j => upd vals i (v j)
+  | OApp i j => upd vals i (v i ++ v j)
+  | OApl i w => upd vals i (v i ++ w)
+  | OApr i j off n => upd vals i (v i ++ takeN n (dropN off (v j)))
+  | OAsr i j off n => upd vals i (takeN n (dropN off (v j)))
+  | OPsh i c => upd vals i (v i ++ [c])
+  | OCon d i n => let k := if n =? npos then lenN (v i) else N.min n (lenN (v i)) in
+                  upd (upd vals i (dropN k (v i))) d (takeN k (v i))
+  | OChp i pos n => upd vals i (takeN n (dropN pos (v i)))
+  | OSub d i pos n => upd vals d (takeN n (dropN pos (v i)))
+  | OTrm i j b e => upd vals i (trim_spec (v j) b e (v i))
+  | OSat i pos c => upd vals i (pokeN (v i) pos c)
+  | OLow i => upd vals i (map lower_byte (v i))
+  | OUpp i => upd vals i (map upper_byte (v i))
+  | OClr i => upd vals i []
+  | ORsv _ _ | ORcp _ _ | ORsq _ _ _ _ _ | OCst _ | OQuery _ _ => vals
+  | ORaw i n w => upd vals i (v i ++ w)
+  end.
+(* effect of an operation that threw: nothing changes, except that assign(ptr,n) has already cleared
+   the target when its append throws *)
+Definition spec_throw (vals : list bytes) (o : op) : list bytes :=
+  match o with
+  | OSet i _ | OAsr i _ _ _ => upd vals i []
+  | _ => vals
+  end.
+Definition spec_after (vals : list bytes) (o : op) (r : out) : list bytes :=
+  match r with
+  | RThrow => spec_throw vals o
+  | RSkip | RShort => vals
+  | _ => spec_vals vals o
+  end.
+
+Section StepProofs.
+Variable alloc_cap : N -> N.
+
+Lemma fin_RS st i (r : res (heap * sbuf)) c1 c2 : SInv st -> (i < length (vars st))%nat ->
+  RS (hp st) (vars st) ex0 i c1 c2 r ->
+  SInv (fst (fin st i r)) /\ snd (fin st i r) <> RUndef /\
+  absv (fst (fin st i r)) = upd (absv st) i (match snd (fin st i r) with RThrow => c2 | _ => c1 end) /\
+  (snd (fin st i r) = RVoid \/ snd (fin st i r) = RThrow).
+Proof.
+  intros I Hi H. unfold fin. destruct r as [[h1 s1]|[h1 s1]|]; [| |contradiction]; cbn [RS fst snd] in *.
+  - destruct H as (H1 & H2 & H3 & _). split; [exact H1|]. split; [discriminate|]. split; [|left; reflexivity].
+    unfold absv; cbn [hp vars]. apply absv_upd; assumption.
+  - destruct H as (H1 & H2 & H3 & _). split; [exact H1|]. split; [discriminate|]. split; [|right; reflexivity].
+    unfold absv; cbn [hp vars]. apply absv_upd; assumption.
+Qed.
+
+Lemma upd_absv_same st i : upd (absv st) i (content (hp st) (getv st i)) = absv st.
+Proof. rewrite <- nth_absv. apply upd_same. Qed.
+End StepProofs.
+
+(* ---- trim ---- *)
+Lemma trim_end_noalias R rc : trim_end_loop false R rc = dropwhile (fun c => memb c R) rc.
+Proof.
+  unfold dropwhile. induction rc as [|x r IH]; cbn [trim_end_loop span]; [reflexivity|].
+  destruct (memb x R); [|reflexivity]. rewrite IH. destruct (span _ r); reflexivity.
+Qed.
+Lemma trim_begin_noalias R c : trim_begin_loop false R c = dropwhile (fun c => memb c R) c.
+Proof.
+  unfold dropwhile. induction c as [|x r IH]; cbn [trim_begin_loop span]; [reflexivity|].
+  destruct (memb x R); [|reflexivity]. rewrite IH. destruct (span _ r); reflexivity.
+Qed.
+Lemma memb_In x l : In x l -> memb x l = true.
+Proof. intros H. unfold memb. apply existsb_exists. exists x. split; [assumption|apply N.eqb_refl]. Qed.
+Lemma trim_end_alias R rc : trim_end_loop true R rc = [].
+Proof.
+  induction rc as [|x r IH]; cbn [trim_end_loop]; [reflexivity|].
+  rewrite memb_In; [exact IH|]. apply in_rev. rewrite rev_involutive. left; reflexivity.
+Qed.
+Lemma trim_begin_alias R c : trim_begin_loop true R c = [].
+Proof.
+  induction c as [|x r IH]; cbn [trim_begin_loop]; [reflexivity|]. rewrite memb_In; [exact IH|left; reflexivity].
+Qed.
+Lemma dropwhile_all p (l : bytes) : (forall x, In x l -> p x = true) -> dropwhile p l = [].
+Proof.
+  unfold dropwhile. induction l as [|x r IH]; intros H; cbn [span]; [reflexivity|].
+  rewrite (H x) by (left; reflexivity). specialize (IH (fun y Hy => H y (or_intror Hy))).
+  destruct (span p r); cbn [snd] in *. assumption.
+Qed.
+Lemma dropwhile_suffix p (l : bytes) : exists a, l = a ++ dropwhile p l.
+Proof. exists (fst (span p l)). unfold dropwhile. symmetry. apply span_app. Qed.
+
+(* the model's trim computes trim_spec with the set of bytes the argument held at the call *)
+Lemma trim_model_spec (alias : bool) (R c0 : bytes) (b e : bool) :
+  (alias = true -> R = c0) ->
+  let c1 := if e then rev (trim_end_loop alias R (rev c0)) else c0 in
+  let c2 := if b then trim_begin_loop alias R c1 else c1 in
+  c2 = trim_spec R b e c0 /\ exists y x, c0 = y ++ c2 ++ x /\ lenN y = lenN c1 - lenN c2.
+Proof.
+  intros Ha. cbn zeta. unfold trim_spec.
+  assert (E1 : (if e then rev (trim_end_loop alias R (rev c0)) else c0) =
+               (if e then rev (dropwhile (fun c => memb c R) (rev c0)) else c0)).
+  { destruct e; [|reflexivity]. destruct alias; [|now rewrite trim_end_noalias].
+    rewrite trim_end_alias, (Ha eq_refl). rewrite dropwhile_all; [reflexivity|].
+    intros x Hx. apply memb_In. apply in_rev. assumption. }
+  rewrite E1. set (v1 := if e then rev (dropwhile (fun c => memb c R) (rev c0)) else c0).
+  assert (P1 : exists x, c0 = v1 ++ x).
+  { unfold v1. destruct e; [|exists []; now rewrite app_nil_r].
+    destruct (dropwhile_suffix (fun c => memb c R) (rev c0)) as [a Ea]. exists (rev a).
+    rewrite <- rev_app_distr, <- Ea. now rewrite rev_involutive. }
+  assert (E2 : (if b then trim_begin_loop alias R v1 else v1) = (if b then dropwhile (fun c => memb c R) v1 else v1)).
+  { destruct b; [|reflexivity]. destruct alias; [|now rewrite trim_begin_noalias].
+    rewrite trim_begin_alias. rewrite dropwhile_all; [reflexivity|].
+    intros x Hx. apply memb_In. rewrite (Ha eq_refl). destruct P1 as [z Pz]. rewrite Pz. apply in_or_app. left; assumption. }
+  rewrite E2. split; [reflexivity|].
+  set (v2 := if b then dropwhile (fun c => memb c R) v1 else v1).
+  assert (P2 : exists y, v1 = y ++ v2).
+  { unfold v2. destruct b; [apply dropwhile_suffix|exists []; reflexivity]. }
+  destruct P1 as [x Px], P2 as [y Py]. exists y, x. split; [rewrite Px, Py, app_assoc; reflexivity|].
+  rewrite Py, lenN_app. lia.
+Qed.
+
+(* operations covered by the refinement theorem below (all indices must name existing variables;
+   rawAppend: the caller writes at most the n bytes it asked for) *)
+Definition covered (st : state) (o : op) : Prop :=
+  let nv := length (vars st) in
+  match o with
+  | OSet i _ | OApl i _ | OPsh i _ | OChp i _ _ | OSat i _ _ | OClr i | ORsv i _ | ORcp i _
+  | ORsq i _ _ _ _ | OQuery i _ => (i < nv)%nat
+  | OAsg i j | OApp i j | OApr i j _ _ | OAsr i j _ _ | OCon i j _ | OSub i j _ _ | OTrm i j _ _ =>
+      (i < nv)%nat /\ (j < nv)%nat
+  | ORaw i n w => (i < nv)%nat /\ lenN w <= n
+  | OLow _ | OUpp _ | OCst _ => False
+  end.
+
+Section StepProofs2.
+Variable alloc_cap : N -> N.
+
+Lemma wf_getv st j : SInv st -> (j < length (vars st))%nat -> wf (hp st) (getv st j).
+Proof. intros I Hj. exact (inv_wf _ _ _ I j Hj). Qed.
+
+Lemma src_in_var st j off n : SInv st -> (j < length (vars st))%nat -> off + n <= slen (getv st j) ->
+  src_in (hp st) (SPtr (sstore (getv st j)) (soff (getv st j) + off)) n /\
+  read_src (hp st) (SPtr (sstore (getv st j)) (soff (getv st j) + off)) n = takeN n (dropN off (nth j (absv st) [])).
+Proof.
+  intros I Hj Hb. destruct (wf_getv st j I Hj) as [W1 W2]. split.
+  - cbn [src_in]. right. split; [assumption|lia].
+  - cbn [read_src]. rewrite nth_absv, content_window.
+    fold (window (soff (getv st j) + off) n (bdata (getb (hp st) (sstore (getv st j))))).
+    fold (window off n (window (soff (getv st j)) (slen (getv st j)) (bdata (getb (hp st) (sstore (getv st j)))))).
+    symmetry. apply window_window. assumption.
+Qed.
+
+(* a state change through `fin` with result contents c_ok / c_throw *)
+Ltac fin_done F :=
+  destruct F as (F1 & F2 & F3 & F4); split; [exact F1|]; split; [exact F2|];
+  destruct F4 as [F4|F4]; rewrite F4 in F3 |- *; cbn [spec_after spec_vals spec_throw]; rewrite F3;
+  rewrite ?upd_absv_same; reflexivity.
+
+Theorem step_refines st o : SInv st -> covered st o ->
+  SInv (fst (step alloc_cap st o)) /\ snd (step alloc_cap st o) <> RUndef /\
+  absv (fst (step alloc_cap st o)) = spec_after (absv st) o (snd (step alloc_cap st o)).
+Proof.
+  intros I C. destruct o; cbn [covered] in C; try contradiction; cbn [step].
+  - (* OSet *)
+    pose proof (fin_RS st i _ _ _ I C (sb_assign_raw_RS alloc_cap _ _ _ i _ (SLit w) (lenN w) I C eq_refl (N.le_refl _))) as F.
+    rewrite read_lit in F. fin_done F.
+  - (* OAsg *)
+    destruct C as [Hi Hj]. destruct (Nat.eqb_spec i j) as [->|Hn]; cbn [fst snd spec_after spec_vals].
+    { split; [assumption|]. split; [discriminate|]. rewrite nth_absv. symmetry. apply upd_absv_same. }
+    unfold sb_assign; cbn [fst snd spec_after spec_vals].
+    destruct (wf_getv st j I Hj) as [WS1 WS2].
+    pose proof (Inv_lock _ _ _ (sstore (getv st j)) I WS1) as I1.
+    assert (WS' : wf (lock (hp st) (sstore (getv st j))) (getv st j)).
+    { apply (wf_same (hp st)); [apply length_lock|apply bdata_lock; assumption|split; assumption]. }
+    destruct (move_into_spec _ _ _ i (getv st j) I1 Hi WS') as [M1 M2]. unfold move_into in M1, M2. cbn [hp vars] in M1, M2.
+    split; [exact M1|]. split; [discriminate|]. unfold absv; cbn [hp vars].
+    rewrite (absv_same (hp st) _ (upd (vars st) i (getv st j))).
+    + apply (absv_upd (hp st) (hp st) (vars st) i); [assumption|intros k _ _; reflexivity|]. now rewrite nth_absv.
+    + intros k Hk. rewrite length_upd in Hk. rewrite (M2 k Hk). apply content_lock. assumption.
+  - (* OApp *)
+    destruct C as [Hi Hj]. unfold sb_append.
+    destruct ((slen (getv st i) =? 0) && Nat.eqb (sstore (getv st i)) 0) eqn:Eopt.
+    + (* empty prototype: assign *)
+      assert (Ze : nth i (absv st) [] = []).
+      { rewrite nth_absv, content_window. replace (slen (getv st i)) with 0 by lia. apply window_zero. }
+      destruct (Nat.eqb_spec i j) as [->|Hn]; cbn [fin fst snd spec_after spec_vals].
+      { rewrite (upd_same' _ _ _ _ eq_refl). split; [destruct st; exact I|]. split; [discriminate|].
+        rewrite Ze. cbn [app]. destruct st; cbn [hp vars]. symmetry. rewrite <- Ze at 2. apply upd_same. }
+      unfold sb_assign; cbn [fin fst snd spec_after spec_vals]. rewrite Ze. cbn [app].
+      destruct (wf_getv st j I Hj) as [WS1 WS2].
+      pose proof (Inv_lock _ _ _ (sstore (getv st j)) I WS1) as I1.
+      assert (WS' : wf (lock (hp st) (sstore (getv st j))) (getv st j)).
+      { apply (wf_same (hp st)); [apply length_lock|apply bdata_lock; assumption|split; assumption]. }
+      destruct (move_into_spec _ _ _ i (getv st j) I1 Hi WS') as [M1 M2]. unfold move_into in M1, M2. cbn [hp vars] in M1, M2.
+      split; [exact M1|]. split; [discriminate|]. unfold absv; cbn [hp vars].
+      rewrite (absv_same (hp st) _ (upd (vars st) i (getv st j))).
+      * apply (absv_upd (hp st) (hp st) (vars st) i); [assumption|intros k _ _; reflexivity|]. now rewrite nth_absv.
+      * intros k Hk. rewrite length_upd in Hk. rewrite (M2 k Hk). apply content_lock. assumption.
+    + destruct (src_in_var st j 0 (slen (getv st j)) I Hj ltac:(lia)) as [Sin Srd].
+      rewrite N.add_0_r in Sin, Srd. rewrite dropN_0 in Srd.
+      pose proof (fin_RS st i _ _ _ I Hi (sb_append_raw_RS alloc_cap _ _ _ i _ _ _ I Hi eq_refl Sin)) as F.
+      unfold sb_append_raw in F. rewrite Srd in F.
+      rewrite takeN_all in F by (rewrite nth_absv; rewrite (wf_content_len _ _ (wf_getv st j I Hj)); lia).
+      rewrite <- nth_absv in F. fin_done F.
+  - (* OApl *)
+    pose proof (fin_RS st i _ _ _ I C (sb_append_raw_RS alloc_cap _ _ _ i _ (SLit w) (lenN w) I C eq_refl (N.le_refl _))) as F.
+    rewrite read_lit, <- nth_absv in F. fin_done F.
+  - (* OApr *)
+    destruct C as [Hi Hj]. destruct (slen (getv st j) <? off + n) eqn:Esk; cbn [fst snd spec_after].
+    { split; [assumption|]. split; [discriminate|reflexivity]. }
+    destruct (src_in_var st j off n I Hj ltac:(lia)) as [Sin Srd].
+    pose proof (fin_RS st i _ _ _ I Hi (sb_append_raw_RS alloc_cap _ _ _ i _ _ _ I Hi eq_refl Sin)) as F.
+    rewrite Srd, <- nth_absv in F. fin_done F.
+  - (* OAsr *)
+    destruct C as [Hi Hj]. destruct (slen (getv st j) <? off + n) eqn:Esk; cbn [fst snd spec_after].
+    { split; [assumption|]. split; [discriminate|reflexivity]. }
+    destruct (src_in_var st j off n I Hj ltac:(lia)) as [Sin Srd].
+    pose proof (fin_RS st i _ _ _ I Hi (sb_assign_raw_RS alloc_cap _ _ _ i _ _ _ I Hi eq_refl Sin)) as F.
+    rewrite Srd in F. fin_done F.
+  - (* OPsh *)
+    pose proof (fin_RS st i _ _ _ I C (lowAppend_RS alloc_cap _ _ _ i _ (SLit [c]) 1 I C eq_refl ltac:(cbn; lia))) as F.
+    cbn [read_src takeN N.eqb] in F. rewrite <- nth_absv in F. fin_done F.
+  - admit.
+  - admit.
+  - admit.
+  - admit.
+  - admit.
+  - admit.
+  - admit.
+  - admit.
+  - admit.
+  - admit.
+  - admit.
+Admitted.
+End StepProofs2.
